@@ -119,7 +119,7 @@ Theorem repair_output_validates_under_readcap_partial :
       fetch_segment H H_eqb pair_hash truthy block_hash seg_hash UB ueb_hash parse_ueb dec c (node_init H c) 0 tries ord = (dn0, r0) ->
       dn_segsize dn0 = Some ss ->
       read_plan (N.of_nat (length ct)) segsize guess 0 None = SegDone ws ->
-      serve H H_eqb pair_hash truthy block_hash seg_hash UB ueb_hash parse_ueb dec c (node_init H c) ws script = (chunks, true) ->
+      serve H H_eqb pair_hash truthy block_hash seg_hash UB ueb_hash parse_ueb dec c (node_init H c) ws script = (chunks, None) ->
       let f' := repair_encode enc (c_k c) (c_n c) ss (concat chunks) in
       f' = f /\
       g_cap H pair_hash empty_leaf block_hash seg_hash UB ueb_hash ser_ueb key f' = c /\
@@ -154,7 +154,7 @@ Proof. exact anchored_verifier_examples. Qed.
    share 0) serve the whole file *)
 Example ex_read_from_two_genuine_shares :
   sym_serve f3_dec f3_cap (sym_node_init f3_cap) [mk_write 0 0 2; mk_write 1 0 2; mk_write 2 0 1] f3_script
-  = ([[1; 2]; [3; 4]; [5]]%N, true).
+  = ([[1; 2]; [3; 4]; [5]]%N, None).
 Proof. exact f3_download_runs. Qed.
 
 Example ex_format_results :
